@@ -192,7 +192,10 @@ flenp_buffer_encode_n(const LengthPrefixKind k,
         return -EINVAL;
     }
     const int rc = flenp_memory_encode(k, lpb, b->data + b->offset, n);
-    b->offset += n;
+    if (rc >= 0) {
+        /* Only what was framed is consumed. */
+        b->offset += n;
+    }
     return rc;
 }
 
@@ -268,7 +271,10 @@ flenp_buffer_to_sink_n(const LengthPrefixKind k,
         return -EINVAL;
     }
     const ssize_t rc = flenp_memory_to_sink(k, sink, b->data + b->offset, n);
-    b->offset += n;
+    if (rc >= 0) {
+        /* Only what was framed is consumed. */
+        b->offset += n;
+    }
     return rc;
 }
 
